@@ -17,7 +17,7 @@ cd "$WT" || exit 2
 
 run_demo() { # returns demo exit code
 	if [ -f "$D/demo.sh" ]; then
-		(cd "$WT" && bash "$D/demo.sh") >"$WT/.demo.out" 2>&1
+		(cd "$WT" && bash "$D/demo.sh" "$WT") >"$WT/.demo.out" 2>&1
 		return $?
 	fi
 	local t; t=$(ls "$D"/*_test.go 2>/dev/null | head -1)
